@@ -108,3 +108,11 @@ Example C13_call_nonvacuous :
                      val st'' (0%nat, [2]) <> val st' (0%nat, [2]).
 Proof. exact call_nonvacuous. Qed.
 Print Assumptions C13_call_nonvacuous.
+
+(* regenerated obligation (props/C12/translate.py -> coq/C12/GenTables.v): every intrinsic of the tree under test is known to the
+   frozen table of the Fortran standard's inquiry functions, and none is flagged `is_inquiry` (first argument skipped by
+   IntrinsicCall.reference_accesses) unless the standard classifies it as an inquiry function *)
+From PV Require Import C12.IntrTable C12.GenTables C12.IntrOblig.
+Theorem C13_inquiry_flags_sound : forallb flag_ok gen_intrinsics = true.
+Proof. exact inquiry_flags_sound. Qed.
+Print Assumptions C13_inquiry_flags_sound.
